@@ -93,9 +93,10 @@ Proof. exact enclose_tag_innermost. Qed.
     3..4 x 1..2 at interior offset 1..2 x 0..1 of the outer box, the tag {a} at every position of the inner interior
     where it fits, including flush against the right wall (repair F14).  [inside_chk]: exactly two fragments come out,
     the outer rectangle without names and the inner one named a; the tag is not rendered.  [outside_chk]: with the tag
-    to the right of both boxes, three fragments: the two rectangles without names and the tag as text. *)
+    to the right of both boxes, three fragments: the two rectangles without names and the tag as text.  [around_chk]: the same with
+    the tag one blank cell to the left of the outer box on a row of the inner box, above it, and below it. *)
 Theorem C16_nested_boxes_name_the_inner_one :
-  forall k, In k tcases -> inside_chk k = true /\ outside_chk k = true.
+  forall k, In k tcases -> inside_chk k = true /\ outside_chk k = true /\ around_chk k = true.
 Proof. exact nested_tag. Qed.
 (** ... and in circles: for every circle of the catalogue and every place where the tag {a} has room inside it without
     touching the drawing ([tag_places], 547 places in the 12 largest circles), exactly one fragment comes out: that
